@@ -1,2 +1,11 @@
 import Solvor.Flow.Theorems
 /-! Axiom audit for the property theorems of C09 (run by every check). -/
+#print axioms Solvor.Flow.Inst.reduced_cost_cert
+#print axioms Solvor.Flow.Inst.infeasible_cut_cert
+#print axioms Solvor.Flow.Inst.chk_feas_iff
+#print axioms Solvor.Flow.Inst.chkMinCost_sound
+#print axioms Solvor.Flow.Inst.chkInfeas_sound
+#print axioms Solvor.Flow.Inst.certified_verdict_unique
+#print axioms Solvor.Flow.assignment_of_flow_partial
+#print axioms Solvor.Flow.assignment_optimal_of_cert
+#print axioms Solvor.Flow.chkAssign_sound
